@@ -81,6 +81,11 @@ func c12Conds(kindSet []int, variant int) []Cond {
 		{K: "result", V: 0},
 		{K: "if:v1ok|E3", F: func(v int, err error) bool { return v == 1 && err == nil || errors.Is(err, E3) }},
 	}
+	if variant >= 8 {
+		// the first registered error wraps the second (a later, more general target must still count)
+		all[0] = Cond{K: "errs", E: fmt.Errorf("dial: %w", E1), Es: []error{E1}}
+		all[1] = Cond{K: "types", T: typeTarget}
+	}
 	var out []Cond
 	for _, k := range kindSet {
 		out = append(out, all[k])
@@ -140,6 +145,9 @@ func c12Build(conds []Cond) *c12Pols {
 	hb := hedgepolicy.BuilderWithDelay[int](50 * time.Nanosecond)
 	for _, c := range conds {
 		switch c.K {
+		case "errs0":
+			ab = ab.AbortOnErrors()
+			hb = hb.CancelOnErrors()
 		case "errs":
 			ab = ab.AbortOnErrors(append([]error{c.E}, c.Es...)...)
 			hb = hb.CancelOnErrors(append([]error{c.E}, c.Es...)...)
@@ -232,7 +240,7 @@ func (p *c12Pols) check(o outcome) string {
 		}, p.hedge)
 		took := vrt.Elapsed() - t0
 		must, may := matchSet(conds, o.v, o.err)
-		if len(conds) == 0 {
+		if len(conds) == 0 || (len(conds) == 1 && conds[0].K == "errs0") {
 			must, may = true, true // none configured: cancel on any result
 		}
 		cancelled := took == 0
@@ -358,7 +366,7 @@ func c12Units(tier string) []Unit {
 	subsets := orderedSubsets()
 	outs := c12Outcomes()
 	var us []Unit
-	for variant := 0; variant < 8; variant++ {
+	for variant := 0; variant < 9; variant++ {
 		variant := variant
 		for i := 0; i < len(subsets); i += 5 {
 			part := subsets[i:min(i+5, len(subsets))]
@@ -438,6 +446,9 @@ func c12Units(tier string) []Unit {
 				}))
 		}
 	}
+	us = append(us, runCases("C12/registration calls with an empty list", len(outs), "HandleErrors() alone x every outcome", func(k int) (string, string) {
+		return "C12/errs()", c12Case([]Cond{{K: "errs0"}}, outs[k])
+	}))
 	deep := c12DeepCases()
 	us = append(us, runCases("C12/deep equality of results holding pointers", len(deep), "result types: *struct, struct holding a pointer, any holding a pointer, array of pointers, slice, map, string, struct of scalars",
 		func(k int) (string, string) { return "C12/deep/" + deep[k].name, strings.Join(deep[k].run(), "; ") }))
